@@ -48,7 +48,7 @@ def h(cfg):
     if outside:
         tgt = choose('outside_to', P.n)
         # the outside task may share its id with a leaf of this WBS (ids are unique per WBS only)
-        xid = [99] + [i + 1 for i in range(P.n) if i != tgt][:1]
+        xid = [99] + [i for i in range(P.n) if i != tgt][:1]
         x = Task(xid[choose('outside_id', len(xid))], 'X', estimate=fresh_real('est_x', 0, 12, grid=None))
         tasks[tgt].predecessors.append(x)
         d += f' outside-pred-of={tgt}'
@@ -122,6 +122,7 @@ def harnesses(tier):
         return [
             {'name': 'n3-missing-values', 'fn': h, 'cfg': dict(BASE, n=3, est_none=True, spent_none=True)},
             {'name': 'n3-outside', 'fn': h, 'cfg': dict(BASE, n=3, spent_none=False, outside=True)},
+            {'name': 'n4-deep', 'fn': h, 'cfg': dict(BASE, n=4, spent_none=False, fixed_parent=[-1, 0, 1, -1])},
             {'name': 'n4-summary-links', 'fn': h, 'cfg': dict(BASE, n=4, spent_none=False, fixed_parent=[-1, 0, 0, -1])},
             {'name': 'n4-flat', 'fn': h, 'cfg': dict(BASE, n=4, spent_none=False, hierarchy=False, link_pairs=[(0, 1), (0, 2), (1, 3), (2, 3)])},
             {'name': 'binary64-regression-menu', 'fn': h_float_menu, 'cfg': {}},
@@ -144,7 +145,7 @@ def h_fp(cfg):
     n = shape['n']
     est = [xfp.fresh_float(f'fest{i}', 0.015625, cfg.get('hi', 1000.0)) for i in range(n)]
     w = WBS()
-    tasks = [Task(i + 1, f't{i}', estimate=est[i]) for i in range(n)]
+    tasks = [Task(i, f't{i}', estimate=est[i]) for i in range(n)]
     for t in tasks:
         w.roots.append(t)
     for a, b in shape['links']:
@@ -156,7 +157,7 @@ def h_fp(cfg):
     except Exception as ex:
         check(False, 'C12 critical_path raised', detail=type(ex).__name__)
         return
-    got = [t.id - 1 for t in res]
+    got = [t.id for t in res]
     # exact (real-valued) lengths of the maximal chains
     if is_native():
         from fractions import Fraction
@@ -203,10 +204,10 @@ def h_float_menu(cfg):
     note('desc', f'concrete binary64 estimates {est} links {links} (sample, not a solver verdict)')
     note('class', k)
     w = WBS()
-    tasks = [Task(i + 1, f't{i}', estimate=e) for i, e in enumerate(est)]
+    tasks = [Task(i, f't{i}', estimate=e) for i, e in enumerate(est)]
     for t in tasks:
         w.roots.append(t)
     for a, b in links:
         tasks[b].predecessors.append(tasks[a])
-    got = sorted(t.id - 1 for t in w.critical_path())
+    got = sorted(t.id for t in w.critical_path())
     check(got == expected, 'C12 result depends on floating-point rounding (concrete regression sample)', detail=f'{est}: {got} vs {expected}')
